@@ -71,9 +71,14 @@ REASONS = {}
 INCLUDES = {
     "C02": "Also runs C15's rules on Frame::read (the second decoding entry point hands the unmodified line to from_bytes), as C02.read(..).",
     "C05": "The frame<->bytes leg is decided by running C01's codec rule set as part of this check, as C05.wire(..).",
-    "C08": "The data plane is decided by running the component rule sets as part of this check: C09.O2-O4 (chunking), C13.O2 (reassembly), C07.O1/O3 (page length), as C08.data(..); that the bus hands every message to the sign and returns its reply (C14.O4) and that no sign handler panics (C12) are legs of the composition too, as C08.bus(..) / C08.total(..). Controller and sign are extracted at both extremes of the log level.",
+    "C08": "The data plane is decided by running the component rule sets as part of this check: C09.O2-O4 (chunking), C13.O2 (reassembly), C07.O1/O3 (page length), as C08.data(..); that the bus hands every message to the sign and returns its reply (C14.O4) and that no sign handler panics (C12) are legs of the composition too, as C08.bus(..) / C08.total(..). The sign-type block (C19 tables) is a leg too, as C08.type(..). Controller and sign are extracted at both extremes of the log level.",
     "C13": "What a complete page of the configured size is (Page::from_bytes / Page::new, C07.O1/O3) is decided here too, as C13.page(..).",
-    "C16": "Frame::write / Frame::read themselves (exactly the frame's encoding with CRLF, exactly one line, errors surfaced) are decided by running C15's rule set here too, as C16.io(..).",
+    "C06": "The Page length invariant the in-bounds panic freedom rests on is decided here too, by running C07.O1/O3 (constructors) as C06.layout(..).",
+    "C09": "What an item is lies outside the transfer routine: page bytes (C07.O1/O3) and the configuration block (C19.O1) are decided here too, as C09.page(..) / C09.block(..).",
+    "C10": "The automaton abstracts the data messages; their contents, offsets and count (C09, with C07.O1/O3 and C19.O1) are decided here too, as C10.data(..).",
+    "C16": "Frame::write / Frame::read themselves (exactly the frame's encoding with CRLF, exactly one line, errors surfaced) are decided by running C15's rule set here too, as C16.io(..); the codec (C01) and the message mapping (C04, C05) as C16.codec(..) / C16.msg(..).",
+    "C18": "The units the pacing rule treats as atomic are decided here too: Frame::write / Frame::read (C15) as C18.io(..), the frame -> message table that says which replies are in-progress reports (C04) as C18.msg(..); plus a rule that Frame::write has no fallible step after the write.",
+    "C19": "That digesting a block does not panic inside the sign-type code (hand-written fmt impls included) is C12's inventory restricted to that code, run here as C19.total(..).",
     "C17": "The byte-stream leg (Frame::read / Frame::write) is decided by running C15's rule set here too, as C17.io(..).",
 }
 checks = []
